@@ -886,6 +886,8 @@ class Unit:
                 snap = self._snapshot()
                 try:
                     self._do_arm(plain[1], plain[2], plain[3], plain[4:] + qopts, block)
+                    if self.functions and self.functions[-1]["path"] in FORCE_LOST:
+                        raise AnchorLost("body refused by the verifier: %s" % FORCE_LOST[self.functions[-1]["path"]])
                 except AnchorLost as e:
                     # the extraction failure stays local: the arm is left out (nothing calls an arm), the rest of the unit is verified, and the runner reports the
                     # properties that depend on this arm as undecided
@@ -903,6 +905,8 @@ class Unit:
                     raise AnchorLost("%s:%d: //@fn without //@end" % (self.vc_path, i + 1))
                 snap = self._snapshot()
                 try:
+                    if parts[2] in FORCE_LOST and "external" not in parts[3:]:
+                        raise AnchorLost("body refused by the verifier: %s" % FORCE_LOST[parts[2]])
                     self._do_fn(parts[1], parts[2], parts[3:], block)
                 except AnchorLost as e:
                     if "external" in parts[3:]:
@@ -1804,6 +1808,12 @@ def _parse_rewrite(ln, path, i):
         # obligation failing (or to an honest "unsupported construct"), not to a lost anchor; applications are counted and reported.
         expect = None if where == "unit" else -1
     return (m.group(2), m.group(3), expect, where)
+
+
+# functions (generated names: `Database::inc_value`, `op_replicate_set`, ...) whose extracted BODY Verus / rustc refused on a first attempt (an std call without a specification, a
+# construct outside Verus' subset - typically after a refactoring): on the retry they are treated like functions whose anchors are lost - emitted with their contract and without
+# their body, resp. the arm left out - so that the rest of the unit is still decided.  Set by verus_unit.run_unit; name -> reason
+FORCE_LOST = {}
 
 
 def generate(vc_path, prelude_path, out_path):
